@@ -22,7 +22,7 @@ class Ids:
         return "%s%d;" % (prefix, self.n)
 
 
-def leaf(kind, ids, rng=None, text_ws=False):
+def leaf(kind, ids, rng=None, text_ws=False, inline_only=False):
     if kind == "text":
         s = ids.next("t")
         if text_ws and rng is not None and rng.random() < 0.35:
@@ -35,9 +35,26 @@ def leaf(kind, ids, rng=None, text_ws=False):
         r = {"k": "html", "s": ids.next("h")}
         if rng is not None and rng.random() < 0.08:
             r["sub"] = True
+        if text_ws and rng is not None and rng.random() < 0.2:
+            r["s"] = rng.choice(["\n", "\r\n", "\n\n", " ", "\r"]) + r["s"]     # raw markup may start with a line break of its own
         return r
     if kind == "obj":
-        return {"k": "obj", "s": ids.next("o")}
+        r = {"k": "obj", "s": ids.next("o")}
+        if text_ws and rng is not None and rng.random() < 0.2:
+            r["s"] = rng.choice(["\n", "\r\n", "\n  ", " "]) + r["s"]
+        return r
+    if kind == "objtf":
+        return {"k": "obj", "s": ids.next("o"), "also_tagifiable": True, "direct_only": True}
+    if kind == "nodelist":
+        from .ref import layout as _layout
+
+        n = rng.choice([1, 2, 3]) if rng is not None else 2
+        items = []
+        for j in range(n):
+            c = rng.random() if rng is not None else 0.5
+            items.append({"k": "text", "s": ids.next("t")} if c < 0.4 else gen.TAG("b", {"k": "text", "s": ids.next("t")}, ws=False, via_fn=False) if c < 0.75
+                         else gen.TAG("div", {"k": "text", "s": ids.next("t")}, ws=True, via_fn=False) if not inline_only else {"k": "html", "s": ids.next("h")})
+        return {"k": "obj", "s": _layout.list_str(items, 0, "\n"), "nodelist": items, "direct_only": True}
     if kind == "meta":
         return {"k": "meta", "sub": True} if ids.n % 3 == 0 else {"k": "meta"}
     if kind == "dep":
@@ -70,12 +87,15 @@ def _attrs(rng, ids):
 
 
 def rand_layout_tree(rng, ids, depth, valid=True, inside_inline=False, max_children=5, text_ws=False,
-                     kinds_w=None, root_kind=None):
+                     kinds_w=None, root_kind=None, direct_only_kinds=False, _under_tag=False):
     """Random subtree.  valid=True keeps block tags out of inline tags."""
     w = kinds_w or {"block": 4, "inline": 4, "void_inline": 1, "void_block": 1, "text": 4, "html": 1, "obj": 1,
                     "meta": 1, "dep": 0.5}
     if "rawtext" not in w:
         w = dict(w, rawtext=0.6)
+    if direct_only_kinds and _under_tag:
+        # kinds that only make sense when markup is asked for directly (get_html_string() without tagify() first)
+        w = dict(w, objtf=0.5, nodelist=0.5)
     ks = [k for k in w if not (valid and inside_inline and k in ("block", "void_block"))]
     kind = root_kind or rng.choices(ks, [w[k] for k in ks])[0]
     if depth <= 0 and kind in ("block", "inline"):
@@ -83,7 +103,7 @@ def rand_layout_tree(rng, ids, depth, valid=True, inside_inline=False, max_child
     if kind in ("block", "inline"):
         n = rng.choice([0, 1, 1, 2, 2, 3, 4, max_children])
         ii = inside_inline or kind == "inline"
-        kids = [rand_layout_tree(rng, ids, depth - 1, valid, ii, max_children, text_ws, kinds_w) for _ in range(n)]
+        kids = [rand_layout_tree(rng, ids, depth - 1, valid, ii, max_children, text_ws, kinds_w, None, direct_only_kinds, True) for _ in range(n)]
         # occasionally the very same object appears twice among the siblings
         tagkids = [k for k in kids if k["k"] == "tag"]
         if tagkids and rng.random() < 0.08:
@@ -93,6 +113,10 @@ def rand_layout_tree(rng, ids, depth, valid=True, inside_inline=False, max_child
         return node_of_kind(kind, ids, rng, kids)
     if kind == "text":
         return leaf("text", ids, rng, text_ws)
+    if kind in ("html", "obj"):
+        return leaf(kind, ids, rng, text_ws)
+    if kind in ("objtf", "nodelist"):
+        return leaf(kind, ids, rng, text_ws, inline_only=valid and inside_inline)
     if kind == "rawtext":
         # <script>/<style>: text children are written verbatim, the layout rules are the same as for any tag
         n = rng.choice([0, 1, 2, 2, 3])
